@@ -270,7 +270,12 @@ func (wvs *worldVirtualState) Reset(snapshot WorldSnapshot) error {
 			// but it may have been changed, so we need to recover it.
 			if las.state != nil {
 				if wvss.base != nil {
-					err = las.state.Reset(wvss.base.GetAccountSnapshot([]byte(id)))
+					if ass := wvss.base.GetAccountSnapshot([]byte(id)); ass != nil {
+						err = las.state.Reset(ass)
+					} else {
+						// the account did not exist in the base snapshot
+						las.state.Clear()
+					}
 				} else {
 					err = las.state.Reset(las.base)
 				}
